@@ -1,9 +1,9 @@
 import ExaModel.Lemmas.PackBasic
 set_option linter.unusedSimpArgs false
 set_option linter.unusedVariables false
-/-! Size lemmas of M-Pack: every loop of `messages` keeps what it holds within `ms` when every
-    NLRI fits alone. `ms` is `msg_size`, `attr` the attribute block; a message is within the
-    negotiated maximum when its length is at most `23 + attr + ms`. -/
+/-! Size lemmas of M-Pack: every loop of `messages` keeps what it holds within `ms`, whatever the
+    NLRIs are (one that cannot fit alone is left out). `ms` is `msg_size`, `attr` the attribute
+    block; a message is within the negotiated maximum when its length is at most `23 + attr + ms`. -/
 namespace Exa.Pack
 
 theorem mem_firsts (k : Nat × Nat) : ∀ l, k ∈ firsts l ↔ k ∈ l := by
@@ -38,23 +38,20 @@ theorem groupsOf_cover {xs : List Nlri} {x : Nlri} (hx : x ∈ xs) :
 /-! ### the v4 loops -/
 
 theorem v4AnnLoop_fits (ms attr : Nat) :
-    ∀ (xs w a : List Nlri), (∀ x ∈ xs, x.size ≤ ms) → sz w + sz a ≤ ms →
+    ∀ (xs w a : List Nlri), sz w + sz a ≤ ms →
       (∀ m ∈ (v4AnnLoop ms attr xs w a).msgs, m.len ≤ 23 + attr + ms) ∧
       sz (v4AnnLoop ms attr xs w a).w + sz (v4AnnLoop ms attr xs w a).a ≤ ms := by
   intro xs
   induction xs with
-  | nil => intro w a _ h; simp [v4AnnLoop, h]
+  | nil => intro w a h; simp [v4AnnLoop, h]
   | cons x xs ih =>
-    intro w a hx h
-    have hx0 := hx x (by simp)
-    have hxs : ∀ y ∈ xs, y.size ≤ ms := fun y hy => hx y (by simp [hy])
+    intro w a h
     unfold v4AnnLoop
     split
-    · rename_i hfit
-      exact ih w (a ++ [x]) hxs (by simp; omega)
+    · exact ih w a h
     · split
-      · simp [h]
-      · have := ih [] [x] hxs (by simp; omega)
+      · exact ih w (a ++ [x]) (by simp; omega)
+      · have := ih [] [x] (by simp; omega)
         refine ⟨?_, this.2⟩
         intro m hm
         simp only [List.mem_cons] at hm
@@ -64,23 +61,20 @@ theorem v4AnnLoop_fits (ms attr : Nat) :
         · exact this.1 m hm
 
 theorem v4WdLoop_fits (ms attr : Nat) :
-    ∀ (xs w a : List Nlri), (∀ x ∈ xs, x.size ≤ ms) → sz w + sz a ≤ ms →
+    ∀ (xs w a : List Nlri), sz w + sz a ≤ ms →
       (∀ m ∈ (v4WdLoop ms attr xs w a).msgs, m.len ≤ 23 + attr + ms) ∧
       sz (v4WdLoop ms attr xs w a).w + sz (v4WdLoop ms attr xs w a).a ≤ ms := by
   intro xs
   induction xs with
-  | nil => intro w a _ h; simp [v4WdLoop, h]
+  | nil => intro w a h; simp [v4WdLoop, h]
   | cons x xs ih =>
-    intro w a hx h
-    have hx0 := hx x (by simp)
-    have hxs : ∀ y ∈ xs, y.size ≤ ms := fun y hy => hx y (by simp [hy])
+    intro w a h
     unfold v4WdLoop
     split
-    · rename_i hfit
-      exact ih (w ++ [x]) a hxs (by simp; omega)
+    · exact ih w a h
     · split
-      · simp [h]
-      · have := ih [x] [] hxs (by simp; omega)
+      · exact ih (w ++ [x]) a (by simp; omega)
+      · have := ih [x] [] (by simp; omega)
         refine ⟨?_, this.2⟩
         intro m hm
         simp only [List.mem_cons] at hm
@@ -89,231 +83,131 @@ theorem v4WdLoop_fits (ms attr : Nat) :
           simp at this; simp; omega
         · exact this.1 m hm
 
-/-! ### the generators -/
+/-! ### the generators: every attribute yielded is within `maxi` -/
 
-theorem reachGen_bound (maxi fam B : Nat) (hB : maxi ≤ B) :
-    ∀ gs : List ((Nat × Nat) × List Nlri),
-      (∀ g ∈ gs, ∀ x ∈ g.2, attrLen (5 + g.1.2 + x.size) ≤ B) →
-      ∀ r ∈ (reachGen maxi fam gs).1, r.wire ≤ B := by
-  intro gs
-  induction gs with
-  | nil => intro _ r hr; simp [reachGen] at hr
-  | cons g gs ih =>
-    intro hg r hr
-    obtain ⟨k, xs⟩ := g
-    have h1 := splitGroup_bound maxi (5 + k.2) B hB xs [] (hg (k, xs) (by simp)) (Or.inl rfl)
-    have hgs : ∀ g ∈ gs, ∀ x ∈ g.2, attrLen (5 + g.1.2 + x.size) ≤ B := fun g' hg' => hg g' (by simp [hg'])
-    unfold reachGen at hr
-    simp only at hr
-    split at hr
-    · simp only [List.mem_map] at hr
-      obtain ⟨it, hit, rfl⟩ := hr
-      rw [wire_eq]; exact h1 it hit
-    · simp only [List.mem_append, List.mem_map] at hr
-      rcases hr with ⟨it, hit, rfl⟩ | hr
-      · rw [wire_eq]; exact h1 it hit
-      · exact ih hgs r hr
-
-theorem reachGen_head (maxi fam : Nat) :
-    ∀ gs : List ((Nat × Nat) × List Nlri),
-      ∀ r, (reachGen maxi fam gs).1.head? = some r → r.wire ≤ maxi := by
+theorem reachGen_bound (maxi fam : Nat) :
+    ∀ gs : List ((Nat × Nat) × List Nlri), ∀ r ∈ reachGen maxi fam gs, r.wire ≤ maxi := by
   intro gs
   induction gs with
   | nil => intro r hr; simp [reachGen] at hr
   | cons g gs ih =>
     intro r hr
     obtain ⟨k, xs⟩ := g
-    have h1 := splitGroup_head maxi (5 + k.2) xs [] (Or.inl rfl)
     unfold reachGen at hr
-    simp only at hr
-    split at hr
-    · rw [List.head?_map] at hr
-      cases hh : (splitGroup maxi (5 + k.2) xs []).1.head? with
-      | none => simp [hh] at hr
-      | some it =>
-        simp [hh] at hr; subst hr
-        rw [wire_eq]; exact h1 it hh
-    · rw [List.head?_append, List.head?_map] at hr
-      cases hh : (splitGroup maxi (5 + k.2) xs []).1.head? with
-      | none => simp [hh] at hr; exact ih r hr
-      | some it =>
-        simp [hh] at hr; subst hr
-        rw [wire_eq]; exact h1 it hh
+    simp only [List.mem_append, List.mem_map] at hr
+    rcases hr with ⟨it, hit, rfl⟩ | hr
+    · rw [wire_eq]; exact splitGroup_bound maxi (5 + k.2) xs [] (Or.inl rfl) it hit
+    · exact ih r hr
 
-theorem unreachGen_bound (maxi fam B : Nat) (hB : maxi ≤ B) (xs : List Nlri)
-    (hx : ∀ x ∈ xs, attrLen (3 + x.size) ≤ B) :
-    ∀ r ∈ (unreachGen maxi fam xs).1, r.wire ≤ B := by
+theorem unreachGen_bound (maxi fam : Nat) (xs : List Nlri) :
+    ∀ r ∈ unreachGen maxi fam xs, r.wire ≤ maxi := by
   intro r hr
   unfold unreachGen at hr
   simp only [List.mem_map] at hr
   obtain ⟨it, hit, rfl⟩ := hr
   rw [wire_eq]
-  exact splitGroup_bound maxi 3 B hB xs [] hx (Or.inl rfl) it hit
-
-theorem unreachGen_head (maxi fam : Nat) (xs : List Nlri) :
-    ∀ r, (unreachGen maxi fam xs).1.head? = some r → r.wire ≤ maxi := by
-  intro r hr
-  unfold unreachGen at hr
-  simp only [List.head?_map] at hr
-  cases hh : (splitGroup maxi 3 xs []).1.head? with
-  | none => simp [hh] at hr
-  | some it =>
-    simp [hh] at hr; subst hr
-    rw [wire_eq]; exact splitGroup_head maxi 3 xs [] (Or.inl rfl) it hh
+  exact splitGroup_bound maxi 3 xs [] (Or.inl rfl) it hit
 
 /-! ### the consumers -/
 
 theorem feedReach_fits (ms attr : Nat) :
-    ∀ (rs : List Mp) (w a : List Nlri) (p : Option Mp),
-      (∀ r ∈ rs, r.wire ≤ ms) →
-      (p = none → ∀ r0, rs.head? = some r0 → sz w + sz a + r0.wire ≤ ms) →
-      sz w + sz a + owire p ≤ ms →
-      (∀ m ∈ (feedReach attr rs w a p).1, m.len ≤ 23 + attr + ms) ∧
-      sz (feedReach attr rs w a p).2.w + sz (feedReach attr rs w a p).2.a
-        + owire (feedReach attr rs w a p).2.reach ≤ ms ∧ (feedReach attr rs w a p).2.unreach = none := by
+    ∀ (rs : List Mp) (p : Option Mp), (∀ r ∈ rs, r.wire ≤ ms) → owire p ≤ ms →
+      (∀ m ∈ (feedReach attr rs p).1, m.len ≤ 23 + attr + ms) ∧ owire (feedReach attr rs p).2 ≤ ms := by
   intro rs
   induction rs with
-  | nil => intro w a p _ _ h; simp [feedReach, h]
+  | nil => intro p _ h; simp [feedReach, h]
   | cons r rs ih =>
-    intro w a p hr hh h
+    intro p hr h
     have hrs : ∀ r' ∈ rs, r'.wire ≤ ms := fun r' h' => hr r' (by simp [h'])
+    have hr0 := hr r (by simp)
     cases p with
     | none =>
       unfold feedReach
-      exact ih w a (some r) hrs (by intro h0; cases h0) (by simpa using hh rfl r (by simp))
+      exact ih (some r) hrs (by simpa using hr0)
     | some p =>
       unfold feedReach
-      have hr0 := hr r (by simp)
-      have := ih [] [] (some r) hrs (by intro h0; cases h0) (by simpa using hr0)
+      have := ih (some r) hrs (by simpa using hr0)
       refine ⟨?_, this.2⟩
       intro m hm
       simp only [List.mem_cons] at hm
       rcases hm with rfl | hm
-      · have := mkMsg_len_le attr w none true (some p) a
+      · have := mkMsg_len_le attr [] none true (some p) []
         simp at this h; omega
       · exact this.1 m hm
 
 theorem feedUnreach_fits (ms attr : Nat) :
-    ∀ (us : List Mp) (w a : List Nlri) (p u : Option Mp),
-      (∀ r ∈ us, r.wire ≤ ms) →
-      (u = none → ∀ u0, us.head? = some u0 → sz w + sz a + owire p + u0.wire ≤ ms) →
-      sz w + sz a + owire p + owire u ≤ ms →
-      (∀ m ∈ (feedUnreach attr us w a p u).1, m.len ≤ 23 + attr + ms) ∧
-      sz (feedUnreach attr us w a p u).2.w + sz (feedUnreach attr us w a p u).2.a
-        + owire (feedUnreach attr us w a p u).2.reach + owire (feedUnreach attr us w a p u).2.unreach ≤ ms := by
+    ∀ (us : List Mp) (p u : Option Mp), (∀ r ∈ us, r.wire ≤ ms) → owire p + owire u ≤ ms →
+      (∀ m ∈ (feedUnreach ms attr us p u).1, m.len ≤ 23 + attr + ms) ∧
+      owire (feedUnreach ms attr us p u).2.reach + owire (feedUnreach ms attr us p u).2.unreach ≤ ms := by
   intro us
   induction us with
-  | nil => intro w a p u _ _ h; simp [feedUnreach, h]
+  | nil => intro p u _ h; simp [feedUnreach, h]
   | cons x us ih =>
-    intro w a p u hr hh h
+    intro p u hr h
     have hrs : ∀ r' ∈ us, r'.wire ≤ ms := fun r' h' => hr r' (by simp [h'])
-    cases u with
-    | none =>
-      unfold feedUnreach
-      exact ih w a p (some x) hrs (by intro h0; cases h0) (by simpa using hh rfl x (by simp))
-    | some u =>
-      unfold feedUnreach
-      have hr0 := hr x (by simp)
-      have := ih [] [] none (some x) hrs (by intro h0; cases h0) (by simpa using hr0)
+    have hr0 := hr x (by simp)
+    unfold feedUnreach
+    split
+    · have := ih none (some x) hrs (by simpa using hr0)
       refine ⟨?_, this.2⟩
       intro m hm
       simp only [List.mem_cons] at hm
       rcases hm with rfl | hm
-      · have := mkMsg_len_le attr w (some u) true p a
-        simp at this h; omega
+      · have := mkMsg_len_le attr [] u true p []
+        simp at this; omega
       · exact this.1 m hm
+    · rename_i hc
+      have hu : u = none := by
+        cases u with
+        | none => rfl
+        | some v => exact absurd (Or.inl rfl) hc
+      subst hu
+      have : ¬ owire p + x.wire > ms := fun h' => hc (Or.inr h')
+      exact ih p (some x) hrs (by simp; omega)
 
-theorem famFinal_fits (ms attr : Nat) (s : MpSt)
-    (h : sz s.w + sz s.a + owire s.reach + owire s.unreach ≤ ms) :
+theorem famFinal_fits (ms attr : Nat) (s : MpSt) (h : owire s.reach + owire s.unreach ≤ ms) :
     ∀ m ∈ famFinal attr s, m.len ≤ 23 + attr + ms := by
   intro m hm
   unfold famFinal at hm
   split at hm
   · simp at hm; subst hm
-    have := mkMsg_len_le attr s.w s.unreach true s.reach s.a
-    omega
+    have := mkMsg_len_le attr [] s.unreach true s.reach []
+    simp at this; omega
   · simp at hm
 
-/-- One family: every message within the maximum when every NLRI of the family fits alone and the
-    IPv4 leftover is within `ms`. -/
-theorem famStep_fits (inclW : Bool) (ms attr fam : Nat) (ra wa w a : List Nlri)
-    (hra : ∀ x ∈ ra, attrLen (5 + x.nhLen + x.size) ≤ ms)
-    (hwa : inclW = true → ∀ x ∈ wa, attrLen (3 + x.size) ≤ ms)
-    (h : sz w + sz a ≤ ms) :
-    ∀ m ∈ (famStep inclW ms attr fam ra wa w a).1, m.len ≤ 23 + attr + ms := by
-  have hg : ∀ g ∈ groupsOf ra, ∀ x ∈ g.2, attrLen (5 + g.1.2 + x.size) ≤ ms := by
-    intro g hg x hx
-    obtain ⟨hxr, hk⟩ := groupsOf_mem hg x hx
-    have := hra x hxr
-    rw [← hk]; simpa [nhKey] using this
-  have b1 := reachGen_bound (ms - (sz w + sz a)) fam ms (by omega) (groupsOf ra) hg
-  have h1 := reachGen_head (ms - (sz w + sz a)) fam (groupsOf ra)
-  have f1 := feedReach_fits ms attr (reachGen (ms - (sz w + sz a)) fam (groupsOf ra)).1 w a none b1
-    (by
-      intro _ r0 hr0
-      have := h1 r0 hr0
-      have := wire_eq r0
-      have := attrLen_pos r0.payload
-      omega)
-    (by simpa using h)
+/-- One family: every message within the maximum, whatever the NLRIs. -/
+theorem famStep_fits (inclW : Bool) (ms attr fam : Nat) (ra wa : List Nlri) :
+    ∀ m ∈ famStep inclW ms attr fam ra wa, m.len ≤ 23 + attr + ms := by
+  have f1 := feedReach_fits ms attr (reachGen ms fam (groupsOf ra)) none
+    (reachGen_bound ms fam (groupsOf ra)) (by simp)
   intro m hm
   unfold famStep at hm
   simp only at hm
   split at hm
-  · exact f1.1 m hm
-  · split at hm
-    · rename_i hi
-      generalize hfr : feedReach attr (reachGen (ms - (sz w + sz a)) fam (groupsOf ra)).1 w a none = fr at f1 hm
-      obtain ⟨f1a, f1b, f1c⟩ := f1
-      have b2 := unreachGen_bound (ms - (sz fr.2.w + sz fr.2.a + owire fr.2.reach)) fam ms (by omega) wa (hwa hi)
-      have h2 := unreachGen_head (ms - (sz fr.2.w + sz fr.2.a + owire fr.2.reach)) fam wa
-      have f2 := feedUnreach_fits ms attr (unreachGen (ms - (sz fr.2.w + sz fr.2.a + owire fr.2.reach)) fam wa).1
-        fr.2.w fr.2.a fr.2.reach none b2
-        (by
-          intro _ u0 hu0
-          have := h2 u0 hu0
-          have := wire_eq u0
-          have := attrLen_pos u0.payload
-          omega)
-        (by simpa using f1b)
-      split at hm
-      · simp only [List.mem_append] at hm
-        rcases hm with hm | hm
-        · exact f1a m hm
-        · exact f2.1 m hm
-      · simp only [List.mem_append] at hm
-        rcases hm with (hm | hm) | hm
-        · exact f1a m hm
-        · exact f2.1 m hm
-        · exact famFinal_fits ms attr _ f2.2 m hm
-    · simp only [List.mem_append] at hm
-      rcases hm with hm | hm
-      · exact f1.1 m hm
-      · refine famFinal_fits ms attr _ ?_ m hm
-        have := f1.2.1; have := f1.2.2
-        simp_all
+  · have f2 := feedUnreach_fits ms attr (unreachGen ms fam wa) (feedReach attr (reachGen ms fam (groupsOf ra)) none).2 none
+      (unreachGen_bound ms fam wa) (by simpa using f1.2)
+    simp only [List.mem_append] at hm
+    rcases hm with (hm | hm) | hm
+    · exact f1.1 m hm
+    · exact f2.1 m hm
+    · exact famFinal_fits ms attr _ f2.2 m hm
+  · simp only [List.mem_append] at hm
+    rcases hm with hm | hm
+    · exact f1.1 m hm
+    · exact famFinal_fits ms attr _ (by simpa using f1.2) m hm
 
-theorem famLoop_fits (inclW : Bool) (ms attr : Nat) (ma mw : List Nlri)
-    (hma : ∀ x ∈ ma, attrLen (5 + x.nhLen + x.size) ≤ ms)
-    (hmw : inclW = true → ∀ x ∈ mw, attrLen (3 + x.size) ≤ ms) :
-    ∀ (fs : List Nat) (w a : List Nlri), sz w + sz a ≤ ms →
-      ∀ m ∈ (famLoop inclW ms attr ma mw fs w a).1, m.len ≤ 23 + attr + ms := by
+theorem famLoop_fits (inclW : Bool) (ms attr : Nat) (ma mw : List Nlri) :
+    ∀ (fs : List Nat), ∀ m ∈ famLoop inclW ms attr ma mw fs, m.len ≤ 23 + attr + ms := by
   intro fs
   induction fs with
-  | nil => intro w a _ m hm; simp [famLoop] at hm
+  | nil => intro m hm; simp [famLoop] at hm
   | cons f fs ih =>
-    intro w a h m hm
-    have s1 := famStep_fits inclW ms attr f (ma.filter (fun x => x.fam = f)) (mw.filter (fun x => x.fam = f)) w a
-      (fun x hx => hma x (List.mem_filter.1 hx).1)
-      (fun hi x hx => hmw hi x (List.mem_filter.1 hx).1) h
+    intro m hm
     unfold famLoop at hm
-    simp only at hm
-    split at hm
-    · exact s1 m hm
-    · simp only [List.mem_append] at hm
-      rcases hm with hm | hm
-      · exact s1 m hm
-      · exact ih [] [] (by simp) m hm
+    simp only [List.mem_append] at hm
+    rcases hm with hm | hm
+    · exact famStep_fits inclW ms attr f _ _ m hm
+    · exact ih m hm
 
 theorem cut_sub : ∀ (l : List Msg), ∀ m ∈ (cut l).1, m ∈ l := by
   intro l
